@@ -429,7 +429,7 @@ def drive(prop, tier, seed, workers=None, replay=None, verbose=False):
         samples = [{"case": r["case"], "observed": r["counters"]} for r in results[:2]] or [{"note": "no case ran"}]
     cov = {
         "evaluations": max(1, len(results)),
-        "distinct_nontrivial": len(distinct) + len(subkeys),
+        "distinct_nontrivial": len(distinct),
         "rule": mod.RULE,
         "samples": samples,
         "cases_planned": len(all_cases), "cases_run": len(results), "cases_skipped_by_budget": skipped,
